@@ -1,15 +1,15 @@
-\* EXPECTED VIOLATION: not publishing cancelled results alone does not repair F8b
+\* EXPECTED VIOLATION (F8c): today's design, ONE document: an older diagnostics result published after the newer one
 CONSTANTS
- Docs = {"d1", "d2"}
+ Docs = {"d1"}
  Mode = "conc"
  MaxEdits = 2
  MaxReqs = 0
  MaxInFlight = 2
  ReqKinds = {"plain", "conv"}
  QueryOutcomes = {"ok"}
- ReadWithLiveVfs = FALSE
- ConvertWithLiveVfs = FALSE
- CancelledDiagPublishesEmpty = FALSE
+ ReadWithLiveVfs = TRUE
+ ConvertWithLiveVfs = TRUE
+ CancelledDiagPublishesEmpty = TRUE
  RespawnAllDiags = FALSE
  PublishOnlyLatest = FALSE
  HoldVfsAcrossApply = FALSE
